@@ -474,6 +474,14 @@ func (s *Session) Serve(h Handler) (err error) {
 		s.stateMutex.RUnlock()
 		select {
 		case <-ctx.Done():
+			// SetCloseDeadline cancels the context that it replaces: only the
+			// end of the session's current context ends Serve.
+			s.stateMutex.RLock()
+			current := s.in.ctx == ctx
+			s.stateMutex.RUnlock()
+			if !current {
+				continue
+			}
 			return ctx.Err()
 		default:
 		}
